@@ -186,13 +186,14 @@ def run(c):
     rdocs = [r for r in base_ok if (r["doc"].get("tax") or {}).get("prices_include")]
     res = cg.run3([r["doc"] for r in rdocs], prefix="c17", op_="rit")
     shown = 0
+    corr_broken = False
     for r0, r in zip(rdocs, res):
         d = r["doc"]
         c.count("remove-included-taxes", 1, json.dumps(d, sort_keys=True))
-        if r["go"] != r["model"]:
+        if r["go"] != r["model"] and not corr_broken:
+            corr_broken = True      # reported once; the implementation's outputs are still judged below (oracle P)
             c.report("correspondence broken: RemoveIncludedTaxes in the model differs from the implementation",
                      {"correspondence": "corr:C17:rit", "document": d, "implementation": r["go_raw"], "model": r["model_raw"]}, no_input=True)
-            break
         if is_err(r["go"]):
             if shown < 3:
                 shown += 1
@@ -213,16 +214,16 @@ def run(c):
                          {"document": d, "implementation": r["go_raw"], "original_result": r0["go_raw"],
                           "clause": "payable equals the original total with tax, residue recorded in rounding"}, finding_id=fid)
     # ---- ... and its result is a fixpoint: serialise, parse, calculate again changes no figure ----
-    rit_ok = [(r0, r) for r0, r in zip(rdocs, res) if not is_err(r["go"]) and r["go"] == r["model"]]
+    rit_ok = [(r0, r) for r0, r in zip(rdocs, res) if not is_err(r["go"])]
     res2 = cg.run3([r["doc"] for _, r in rit_ok], prefix="c17", op_="rit2")
     shown = 0
     for (r0, r1), r in zip(rit_ok, res2):
         d = r["doc"]
         c.count("remove-included-taxes-recalculated", 1, json.dumps(d, sort_keys=True))
-        if r["go"] != r["model"]:
+        if r["go"] != r["model"] and not corr_broken:
+            corr_broken = True
             c.report("correspondence broken: RemoveIncludedTaxes followed by a calculation in the model differs from the implementation",
                      {"correspondence": "corr:C17:rit2", "document": d, "implementation": r["go_raw"], "model": r["model_raw"]}, no_input=True)
-            break
         if r["go"] != r1["go"]:        # every projected figure, with its precision
             if shown < 3:
                 shown += 1
